@@ -427,6 +427,8 @@ impl Value {
                         false
                     }
                 }
+                // agree with `==`, which treats an arglist as a comma separated list
+                Value::ArgList(..) => self != other,
                 _ => true,
             },
             s => s != other,
